@@ -20,7 +20,7 @@ limitations under the License.
 //? type_def.comment : type_def.cpp.comment | comment
 enum class {{ type_def.cpp.deprecated ~ type_def.cpp.name }} : unsigned {
 //> for flag in type_def.flags:
-    //? flag.comment : comment(flag.cpp.comment) | indent
+    //? flag.comment : flag.cpp.comment | comment | indent
     {{ flag.cpp.name ~ flag.cpp.deprecated ~ " = " -}}
     /*> if flag.none */
         {{- "0" -}}
